@@ -159,6 +159,8 @@ func (c *schedCtl) sig() string {
 // waitOrClassify waits for done; if it does not come, it decides structurally
 // from two goroutine dumps taken a second apart whether the process is
 // deadlocked.  Returns "", "deadlock:<parked set>", or "inconclusive".
+var c06spinProbe func() (reads int64, pending int)
+
 func waitOrClassify(done <-chan struct{}, sc *schedCtl) (string, string) {
 	select {
 	case <-done:
@@ -167,12 +169,22 @@ func waitOrClassify(done <-chan struct{}, sc *schedCtl) (string, string) {
 	}
 	for try := 0; try < 8; try++ {
 		d1 := census.Dump()
+		var reads1 int64
+		if c06spinProbe != nil {
+			reads1, _ = c06spinProbe()
+		}
 		select {
 		case <-done:
 			return "", ""
 		case <-time.After(time.Second):
 		}
 		d2 := census.Dump()
+		if c06spinProbe != nil {
+			// livelock witness: tens of thousands of Read calls in a second with nothing to read
+			if reads2, pending := c06spinProbe(); pending == 0 && reads2-reads1 > 20000 {
+				return "livelock:input-read-spin", fmt.Sprintf("the input loop called Tty.Read %d times within one second although no input is pending (a Read that returns 0, nil after Drain is retried for ever)", reads2-reads1)
+			}
+		}
 		s1, b1 := census.Parked(d1, nil)
 		s2, b2 := census.Parked(d2, nil)
 		sc.mu.Lock()
@@ -225,6 +237,8 @@ func c06run(sn c06scn) (res c06res) {
 	ti.PadChar = ""
 	ft := faketty.New(20, 5)
 	ft.DrainReturnsNil = sn.DrainNil
+	c06spinProbe = func() (int64, int) { return ft.ReadCount(), ft.Pending() }
+	defer func() { c06spinProbe = nil }()
 	sc := newSched(sn.Sched)
 	sc.limit = 4*40*10 + 16
 	tcell.VerifSetSched(sc.point)
@@ -248,10 +262,12 @@ func c06run(sn c06scn) (res c06res) {
 	}
 	s.PollEvent()
 	_, evCap, _, keyCap := levels()
-	if sn.EvFill > evCap && sn.Kind != "racefill" {
+	if sn.Kind == "starterr" {
+		// EvFill only selects the variant
+	} else if sn.EvFill > evCap && sn.Kind != "racefill" {
 		sn.EvFill = evCap
 	}
-	for i := 0; i < sn.EvFill && sn.Kind != "racefill"; i++ {
+	for i := 0; i < sn.EvFill && sn.Kind != "racefill" && sn.Kind != "starterr"; i++ {
 		if err := s.PostEvent(tcell.NewEventInterrupt(i)); err != nil {
 			return incon("could not fill the event queue")
 		}
@@ -437,9 +453,10 @@ func c06run(sn c06scn) (res c06res) {
 				rg()
 			}()
 		}
+		var pan any
 		go func() {
 			defer close(done)
-			defer func() { _ = recover() }()
+			defer func() { pan = recover() }()
 			if kind == "fini" {
 				ft.BeginFini()
 				s.Fini()
@@ -447,7 +464,11 @@ func c06run(sn c06scn) (res c06res) {
 				_ = s.Suspend()
 			}
 		}()
-		return waitOrClassify(done, sc)
+		c, w := waitOrClassify(done, sc)
+		if c == "" && pan != nil {
+			return "panic:" + kind, fmt.Sprintf("%s panicked: %v", kind, pan)
+		}
+		return c, w
 	}
 	probe := func(name string, f func()) (string, string) {
 		done := make(chan struct{})
@@ -571,6 +592,70 @@ func c06run(sn c06scn) (res c06res) {
 	}
 
 	switch sn.Kind {
+	case "starterr":
+		// the terminal cannot be taken over again (Tty.Start fails once at Resume): Resume
+		// reports it, a later Resume succeeds, input flows again, and the shutdown returns
+		if cat, w := shutdown("suspend"); cat != "" {
+			if cat == "inconclusive" {
+				return incon("Suspend: " + w)
+			}
+			return fail(cat, "Suspend: "+w, true)
+		}
+		ft.Locked(func() { ft.StartErr = errors.New("injected start error") })
+		var rerr error
+		if cat, w := probe("Resume", func() { rerr = s.Resume() }); cat != "" {
+			if cat == "inconclusive" {
+				return incon(w)
+			}
+			return fail(cat, "Resume with a failing Tty.Start: "+w, true)
+		}
+		if rerr == nil {
+			return fail("resume:start-error-swallowed", "Tty.Start failed but Resume returned nil", true)
+		}
+		ft.Locked(func() { ft.StartErr = nil })
+		for k := 0; k < sn.EvFill%3; k++ {
+			// the application may suspend again (a no-op) before it retries
+			if cat, w := shutdown("suspend"); cat != "" && cat != "inconclusive" {
+				return fail(cat, "Suspend after a failed Resume: "+w, true)
+			}
+		}
+		if cat, w := probe("Resume", func() { rerr = s.Resume() }); cat != "" {
+			if cat == "inconclusive" {
+				return incon(w)
+			}
+			return fail(cat, "second Resume: "+w, true)
+		}
+		if rerr != nil {
+			return fail("resume:refused-after-start-error", fmt.Sprintf("after a Resume that failed because Tty.Start failed, the next Resume (Start working again) returns %v", rerr), true)
+		}
+		if !feedOK([]byte("q")) {
+			return incon("reader did not take input after the second Resume")
+		}
+		gotKey := false
+		for i := 0; i < 50 && !gotKey; i++ {
+			var ev tcell.Event
+			if cat, w := probe("PollEvent", func() { ev = s.PollEvent() }); cat != "" {
+				if cat == "inconclusive" {
+					return incon(w)
+				}
+				return fail("after-resume:no-delivery", "a key typed after the second Resume is not delivered: "+w, true)
+			}
+			if k, ok := ev.(*tcell.EventKey); ok && k.Rune() == 'q' {
+				gotKey = true
+			}
+		}
+		if !gotKey {
+			return fail("after-resume:no-delivery", "a key typed after the second Resume is not delivered", true)
+		}
+		if sn.EvFill%2 == 1 {
+			if cat, w := shutdown("suspend"); cat != "" {
+				if cat == "inconclusive" {
+					return incon("Suspend: " + w)
+				}
+				return fail(cat, "Suspend after the recovered Resume: "+w, true)
+			}
+		}
+		return finalFini()
 	case "racefill":
 		// many tries of: the event queue one short of full, then an input event and a
 		// PostEvent racing for the last slot with nobody polling, then Suspend
@@ -765,6 +850,9 @@ func c06scenarios(r *core.Run) []c06scn {
 			add(c06scn{Kind: k, KeyFill: -1, Reader: "read", Conc: "none", Stall: true})
 			add(c06scn{Kind: k, KeyFill: -1, Reader: "read", Conc: "flood", Sched: int64(rep)})
 		}
+	}
+	for i := 0; i < 6; i++ {
+		add(c06scn{Kind: "starterr", EvFill: i, KeyFill: -1, Reader: "read", Conc: "none", DrainNil: i%2 == 1})
 	}
 	for i := 0; i < r.Pick(12, 64); i++ {
 		add(c06scn{Kind: "racefill", EvFill: r.Pick(400, 3000), KeyFill: -1, Reader: "read", Conc: "none", Sched: int64(i % 2)})
